@@ -1581,6 +1581,15 @@ class DynamicBase(BaseSpaceImpl):
         self.clear_subs_rootitems()
         super().on_delete()
 
+    def set_formula(self, formula):
+        super().set_formula(formula)
+        # The dynamic spaces copied from this space hold the old formula
+        self.clear_subs_rootitems()
+
+    def del_formula(self):
+        super().del_formula()
+        self.clear_subs_rootitems()
+
 
 _user_space_impl_base = (
     DynamicBase,
@@ -1611,6 +1620,7 @@ class UserSpaceImpl(*_user_space_impl_base):
         source=None,
         doc=None
     ):
+        DynamicBase.__init__(self)      # Before the formula is set
         BaseSpaceImpl.__init__(
             self,
             parent=parent,
@@ -1620,7 +1630,6 @@ class UserSpaceImpl(*_user_space_impl_base):
             refs=refs,
             doc=doc
         )
-        DynamicBase.__init__(self)
         EditableParentImpl.__init__(self)
 
         self.cellsnamer = AutoNamer("Cells")
